@@ -47,7 +47,8 @@ func (propC03) Gen(r *Rand) *Plan {
 				if strings.TrimSpace(s) == "" {
 					s = "1"
 				}
-				tp.Ops[i].S = name + "(" + s + ")"
+				tp.Ops[i].S = faultyShape(r, name, s)
+				f.At = f.At&^0xff | faultyCallIndex(r, tp.Ops[i].S, name)
 			}
 		}
 		if kind == "calc" && r.Bool(0.25) {
@@ -159,7 +160,7 @@ func (propC03) Exec(p *Plan, x *Ctx) *Outcome {
 			// a failing operations manager must not crash or yield nothing; whether every such failure has to
 			// end the evaluation is not said by the statement (it lists failing *functions*), so only the
 			// result-xor-error monitor above applies
-		case "fn_error", "fn_panic", "fn_error_plain", "var_missing":
+		case "fn_error", "fn_panic", "fn_error_plain", "fn_both", "var_missing":
 			if !strings.Contains(r.got, "eval=error:") && !strings.Contains(r.got, "eval=NEITHER") && !strings.Contains(r.got, "eval=BOTH") {
 				out.Violate("fault-surfaces", "C03/fault-swallowed/"+r.st.fired, "%s: the fault fired but the evaluation gave %s", where, clip(r.got))
 			}
